@@ -943,6 +943,8 @@ fn gen_c05_history(rng: &mut Rng, visual: bool) -> (Vec<Call>, i64) {
 
 static C05_ORDER: Mutex<Option<Vec<u64>>> = Mutex::new(None); // shard-major order, or None = random
 static C05_RAND: Mutex<Option<Rng>> = Mutex::new(None);
+/// (shard a, m): m commands of shard a first, then every other shard completely, then the rest of shard a
+static C05_SPLIT: Mutex<Option<(u64, usize)>> = Mutex::new(None);
 static C05_TRACE: Mutex<Vec<String>> = Mutex::new(Vec::new());
 static C05_SHARDS: std::sync::atomic::AtomicUsize = std::sync::atomic::AtomicUsize::new(0);
 static C05_ENQ: std::sync::atomic::AtomicUsize = std::sync::atomic::AtomicUsize::new(0);
@@ -968,7 +970,22 @@ fn install_c05_hook() {
                 // the last command of this query is queued: run the workers in the prescribed order
                 let ncand = arg as usize;
                 let mut seq: Vec<u64> = vec![];
-                if let Some(order) = C05_ORDER.lock().unwrap().clone() {
+                if let Some((a, m)) = *C05_SPLIT.lock().unwrap() {
+                    let m = m.min(ncand);
+                    for _ in 0..m {
+                        seq.push(a);
+                    }
+                    for k in 0..shards as u64 {
+                        if k != a {
+                            for _ in 0..ncand {
+                                seq.push(k);
+                            }
+                        }
+                    }
+                    for _ in m..ncand {
+                        seq.push(a);
+                    }
+                } else if let Some(order) = C05_ORDER.lock().unwrap().clone() {
                     for k in order {
                         for _ in 0..ncand {
                             seq.push(k);
@@ -1010,6 +1027,10 @@ fn c05_run(kind: &str, hist_id: usize, calls: &[Call], margin: i64, shards: usiz
     C05_ENQ.store(0, Ordering::SeqCst);
     C05_SHARDS.store(if gated { shards } else { 0 }, Ordering::SeqCst);
     *C05_ORDER.lock().unwrap() = perm;
+    *C05_SPLIT.lock().unwrap() = order.strip_prefix("split:").map(|x| {
+        let (a, m) = x.split_once('.').unwrap();
+        (a.parse().unwrap(), m.parse().unwrap())
+    });
     *C05_RAND.lock().unwrap() = Some(Rng::new(rseed));
     let (tx, rx) = mpsc::channel();
     let (kind_s, calls_c) = (kind.to_string(), calls.to_vec());
@@ -1118,10 +1139,72 @@ fn gen_c05_crowd(rng: &mut Rng, visual: bool, nobj: usize, frames: usize) -> (Ve
     (calls, 600)
 }
 
+/// Appearance contest (VisualSort): tracks A, B, C, D are created in this order (ids 1..4, so A and B live in
+/// different shards for every shard count >= 2) and collect two features each. In the last frame, in this candidate
+/// order: dA (A's own detection, feature distances ~0.05 to A's gallery), dB (B's detection whose look has drifted:
+/// distances ~0.9 to B's gallery, the largest distances of the stream), dL (a look-alike at a new place: distances
+/// ~0.3 to A's gallery). dA and dL both claim A with two votes each; by the sum of (global max - distance) dA wins by
+/// a wide margin (no tie), dL starts a new track. The shard of B delivers the large distances before, between or
+/// after the two claims depending on the forced order. A fifth, still immature track Y (no feature distances) is the
+/// first candidate of that frame: mixed visual maturity, with the feature-less group leading the stream or not
+/// depending on which shard delivers first.
+fn gen_c05_contest(rng: &mut Rng) -> (Vec<Call>, i64) {
+    let e = |rng: &mut Rng| rng.dyadic(0, 8, 9); // < 0.016
+    let pos = [(0.0f32, 0.0f32), (300.0, 0.0), (0.0, 300.0), (300.0, 300.0)];
+    let look = [(0.0f32, 0.0f32), (10.0, 0.0), (20.0, 0.0), (30.0, 0.0)];
+    let mk = |x: f32, y: f32, fx: f32, fy: f32| CDet { x, y, aspect: 0.625, h: 32.0, conf: 1.0, feat: Some(vec![fx, fy]) };
+    let mut calls = vec![];
+    // Y enters one frame later (id 5): in the last frame it is still too young for appearance matching, so its
+    // record group carries no feature distance - and it is the FIRST candidate of that frame
+    let (ypos, ylook) = ((600.0f32, 0.0f32), (40.0f32, 0.0f32));
+    for f in 0..2 {
+        let mut ds: Vec<CDet> = (0..4)
+            .map(|j| mk(pos[j].0 + f as f32, pos[j].1 + 0.5 * f as f32, look[j].0 + 0.02 * f as f32 + e(rng), look[j].1 + 0.01 * f as f32 + e(rng)))
+            .collect();
+        if f == 1 {
+            ds.push(mk(ypos.0, ypos.1, ylook.0 + e(rng), ylook.1));
+        }
+        calls.push((5u64, ds));
+    }
+    let drift = 0.86 + rng.dyadic(0, 8, 8); // 0.86 .. 0.89
+    let alike = 0.26 + rng.dyadic(0, 16, 8); // 0.26 .. 0.32
+    let ds = vec![
+        mk(ypos.0 + 1.0, ypos.1 + 0.5, ylook.0 + 0.03 + e(rng), ylook.1),
+        mk(pos[0].0 + 2.0, pos[0].1 + 1.0, look[0].0 + 0.05 + e(rng), look[0].1),
+        mk(pos[1].0 + 2.0, pos[1].1 + 1.0, look[1].0 + drift, look[1].1),
+        mk(150.0, 150.0, look[0].0 + e(rng), look[0].1 + alike),
+        mk(pos[2].0 + 2.0, pos[2].1 + 1.0, look[2].0 + 0.04 + e(rng), look[2].1),
+        mk(pos[3].0 + 2.0, pos[3].1 + 1.0, look[3].0 + 0.04 + e(rng), look[3].1),
+    ];
+    calls.push((5u64, ds));
+    (calls, 600)
+}
+
 fn gen_c05(seed: u64, n: usize, tier: &str) {
     let mut rng = Rng::new(seed ^ 0xC05);
     let thorough = tier == "thorough";
     let nh = if thorough { 4 * n } else { n };
+    // appearance contests (VisualSort): the large feature distances arrive before / between / after the two claims
+    let ncontest = if thorough { 8 } else { 3 };
+    for i in 0..ncontest {
+        let (calls, margin) = gen_c05_contest(&mut rng);
+        let h = 2000 + i;
+        for _ in 0..4 {
+            c05_run("visual", h, &calls, margin, 1, "free", None, 0);
+        }
+        for shards in 1..=4usize {
+            let a = (1 % shards) as u64; // the shard of track A (id 1)
+            for m in 0..=3usize {
+                c05_run("visual", h, &calls, margin, shards, &format!("split:{}.{}", a, m), None, 0);
+            }
+            for p in permutations(shards) {
+                let name = format!("perm:{}", p.iter().map(|k| k.to_string()).collect::<Vec<_>>().join("."));
+                c05_run("visual", h, &calls, margin, shards, &name, Some(p), 0);
+            }
+            let rs = 1 + rng.below(1 << 30);
+            c05_run("visual", h, &calls, margin, shards, &format!("rand:{}", rs), None, rs);
+        }
+    }
     // long-id histories: one per tracker kind
     for (i, kind) in ["sort", "visual"].iter().enumerate() {
         let nobj = 264 + rng.below(24) as usize;
